@@ -266,7 +266,9 @@ def native_seq(so, calls, world, values, outputs=(), timeout=60, pre=None):
             v = nw.read(o, off, ty)
             if isinstance(v, float) and (v != v or v in (float('inf'), float('-inf'))): v = repr(v)
             out[label] = v
-        res = {'ret': rets[-1] if rets else None, 'rets': rets, 'out': out, 'canaries': nw.canaries_intact(), 'nwarn': lib.vf_get_nwarn()}
+        lib.vf_get_calls.restype = ctypes.c_char_p
+        res = {'ret': rets[-1] if rets else None, 'rets': rets, 'out': out, 'canaries': nw.canaries_intact(), 'nwarn': lib.vf_get_nwarn(),
+               'calls': [c for c in lib.vf_get_calls().decode().split(';') if c]}
         if calls and calls[-1][2] == 'ptr':
             ret = rets[-1]; res['ret_obj'] = None
             if ret:
@@ -295,7 +297,7 @@ def close(a, b, semantics):
     return int(a) == int(b)
 
 
-def make_replay(so, fname, world, args, restype='void', outputs=(), expect='return', semantics='bv', ret_term=None, pre=None, timeout=60):
+def make_replay(so, fname, world, args, restype='void', outputs=(), expect='return', semantics='bv', ret_term=None, pre=None, timeout=60, calls=None):
     """Replay closure: runs the real function natively on the model's inputs and compares the observable
     outputs with the values the encoding predicts under the same model.
     outputs: list of (label, WObj, off, ty, z3 term predicted by the encoding).
@@ -327,6 +329,9 @@ def make_replay(so, fname, world, args, restype='void', outputs=(), expect='retu
             rv = res['ret']
             if not close(pv, rv, semantics): mism.append(('ret', pv, rv))
         detail['native_outputs'] = res['out']; detail['native_ret'] = res['ret']; detail['predicted'] = pred
+        if calls is not None:
+            detail['native_calls'] = res['calls']; detail['predicted_calls'] = list(calls)
+            if list(calls) != res['calls']: mism.append(('calls', calls, res['calls']))
         if res['canaries']: detail['canaries'] = res['canaries']
         if mism:
             detail['encoding_mismatch'] = [(l, str(a), str(b)) for l, a, b in mism[:10]]
@@ -432,3 +437,36 @@ def make_asan_replay(so_asan_fn, calls, world):
         detail = {'native': st[0], 'report': str(st[1])[:600] if len(st) > 1 else None, 'inputs': {k: v for k, v in list(values.items())[:40]}}
         return st[0] in ('asan', 'crash'), detail
     return replay
+
+
+class SB:
+    """struct builder: one World object laid out like a C struct (offsets from clang's debug info)"""
+    def __init__(self, w, L, struct, name=None, zero=False):
+        self.w = w; self.L = L; self.struct = struct; self.o = w.obj(name or struct.rstrip('_'), L.sizeof(struct))
+        if zero: self.o.zeros()
+        self.arrays = {}
+    def _ty(self, path):
+        off, size, kind = self.L.field(self.struct, path)
+        if kind == 'fp': ty = {8: 'f64', 4: 'f32'}[size]
+        elif kind == 'ptr': ty = 'ptr'
+        elif kind in ('int', 'uint'): ty = {1: 'u8', 2: 'i16', 4: 'i32', 8: 'i64'}[size]
+        else: raise KeyError('field %s of %s is a %s' % (path, self.struct, kind))
+        return off, ty
+    def set(self, path, val):
+        off, ty = self._ty(path); self.o.put(off, ty, val); return val
+    def sym(self, path, name=None):
+        off, ty = self._ty(path); return self.o.sym(off, ty, name or path.replace('.', '_').replace('[', '_').replace(']', ''))
+    def off(self, path): return self.L.field(self.struct, path)[0]
+    def arr(self, path, elty, n, vals=None, name=None):
+        o, vs = self.w.arr(name or path, elty, n, vals)
+        off, ty = self._ty(path); assert ty == 'ptr', path
+        self.o.put(off, 'ptr', (o, 0)); self.arrays[path] = (o, elty, n, vs)
+        return o, vs
+    def null(self, path):
+        off, ty = self._ty(path); self.o.put(off, 'ptr', None)
+    def load(self, ex, st, path):
+        off, ty = self._ty(path)
+        return ex.load(st, self.w.P(self.o, off), irty(ty))
+    def out(self, ex, st, path, label=None):
+        off, ty = self._ty(path)
+        return (label or path, self.o, off, ty, ex.load(st, self.w.P(self.o, off), irty(ty)))
